@@ -53,7 +53,7 @@ class ExpressionDecorator(Decorator, ABC):
         if not self.has_expression():
             raise AttributeError(f"{self} has no expression defined")
         try:
-            return await self._ast_expression.eval(state_vars)
+            return bool(await self._ast_expression.eval(state_vars))
         except Exception as exc:
             await self.dm.handle_exception(exc)
             return False
